@@ -640,7 +640,9 @@ class FieldValueComponentUrl(FieldValueComponentKeyValueBase):
 
     def _get_value_as_simple_type(self):
         if self.value.scheme == 'mailto':
-            value = 'mailto:' + self.value.path[1:]
+            value = 'mailto:' + self.value.request_uri[1:]
+            if self.value.fragment is not None:
+                value += '#' + self.value.fragment
         else:
             value = str(self.value)
 
